@@ -653,11 +653,7 @@ impl Quantity {
             #[cfg(feature = "std")]
             self.value.abs(),
             #[cfg(not(feature = "std"))]
-            if self.value >= 0.0 {
-                self.value
-            } else {
-                -self.value
-            },
+            f32::from_bits(self.value.to_bits() & 0x7fff_ffff),
             self.unit,
         )
     }
